@@ -32,7 +32,7 @@ DESC = {
 }
 rows = {}
 for line in LOG.read_text().splitlines() if LOG.exists() else []:
-    m = re.match(r"(/tmp/seed[2345]?_(C\d\d)/([A-J])) demo without patch: exit (\d+) ; with patch: exit (\d+) ; suite with patch: (.*)", line)
+    m = re.match(r"(/tmp/seed[23456]?_(C\d\d)/([A-L])) demo without patch: exit (\d+) ; with patch: exit (\d+) ; suite with patch: (.*)", line)
     if m:
         rows[f"{m.group(2)}-{m.group(3)}"] = (int(m.group(4)), int(m.group(5)), m.group(6), m.group(1))
 extra = json.loads(pathlib.Path("/root/work/seed_desc_extra.json").read_text()) if pathlib.Path("/root/work/seed_desc_extra.json").exists() else {}
